@@ -27,7 +27,8 @@ RULE = ('Hypothesis-generated headers of 1-6 distinct names over printable ASCII
         'noheader} (random letter case) x caller flag {True, False} for query_csv and the CLI, with a join file. Oracle = position lookup: the selected value equals '
         'the cell at that header position for every record, output record count == number of data lines, NR of the first record is 1, the header line appears as data iff '
         'no header is in force, and the effective flag (modifier else caller) applies to the join table too. Non-trivial = a name containing a quote, backslash, '
-        'bracket, whitespace or non-ASCII character (or a WITH modifier that overrides the caller flag); distinct = case digests.')
+        'bracket, whitespace or non-ASCII character (or a WITH modifier that overrides the caller flag); distinct = case digests.'
+        ' Later additions: columns literally called NR / NF addressed as a.NR, sqlite GENERATED columns, variables used only inside an f-string, non-ASCII and comma-containing names in EXCEPT / UPDATE / JOIN keys.')
 ASSUMPTIONS = ['sqlite column names are non-empty and distinct case-insensitively', 'CSV headers with line breaks use the quoted_rfc policy',
                'direct-mode names avoid Python builtins and the engine\'s own identifiers']
 
